@@ -27,6 +27,7 @@ fn main() {
             steps: 40,
             low_quality: rng.chance(0.3),
             avoid_coincident: kind.is_visual() && (cfg.vis.own_use + cfg.vis.own_collect > 0.0),
+            low_conf: rng.chance(0.15),
         };
         let h = HistOpts { len: if cli.small { 6 } else { 30 + rng.usize(91) }, lifecycle_ops: false, clear_wasted: false, auto_waste_ops: false, batches: kind.is_batch(), empty_calls: true };
         let ops = gen_history(&mut rng, &w, &h);
